@@ -1,0 +1,8 @@
+//go:build !verif
+
+package vm
+
+const verifEnabled = false
+
+// VerifStep is never called without the verif build tag.
+var VerifStep func()
